@@ -124,6 +124,56 @@ pub fn scenario(mode: &str, pool_size: u32, progs: &[&str], gate: Gate) -> Scena
     }
 }
 
+/// Timeouts: a statement the server answers only after `statement_timeout` has given up on it (the
+/// client still there, or already gone), and a transaction left idle past
+/// `idle_client_in_transaction_timeout`; other clients run before, during and after.
+pub fn timeout_scenario(mode: &str, pool_size: u32, victim: &str) -> Scenario {
+    use crate::mockpg::{Fault, FaultKind, Matcher};
+    use crate::world::CloseKind;
+    let mut pool = PoolCfg::simple("db", mode, pool_size, 1, 0);
+    pool.users[0].extra = "statement_timeout = 2000\n".into();
+    let mut cfg = Cfg::one(pool);
+    cfg.idle_in_txn_timeout = 3000;
+    let mut servers = cfg.servers();
+    servers[0].faults.push(Fault { on: Matcher::Contains("SLOW!".into()), kind: FaultKind::Delay(3000), once: false });
+    let t = |j: usize, k: usize| tag(0, j, k);
+    let mut v = Script::new("c0").connect("alice", "db", Some("alicepw")).q(&format!("SELECT 0 /*{}*/", t(0, 0)));
+    match victim {
+        "slow-drop" => {
+            v = v.send(wire::query(&format!("SELECT SLOW! /*{}*/", t(1, 0))), "Q SELECT SLOW!").close(CloseKind::HardDrop);
+        }
+        "slow-fin" => {
+            v = v.send(wire::query(&format!("SELECT SLOW! /*{}*/", t(1, 0))), "Q SELECT SLOW!").close(CloseKind::Fin);
+        }
+        "slow-stay" => {
+            v = v.q(&format!("SELECT SLOW! /*{}*/", t(1, 0))).step(crate::world::Step::Reconnect { user: "alice".into(), db: "db".into(), password: Some("alicepw".into()) }).q(&format!("SELECT 2 /*{}*/", t(2, 0))).terminate();
+        }
+        "slow-in-txn-drop" => {
+            v = v.q(&format!("BEGIN /*{}*/", t(1, 0))).send(wire::query(&format!("SELECT SLOW! /*{}*/", t(1, 1))), "Q SELECT SLOW!").close(CloseKind::HardDrop);
+        }
+        "idle-in-txn" => {
+            v = v.q(&format!("BEGIN /*{}*/", t(1, 0))).q(&format!("SELECT 1 /*{}*/", t(1, 1))).wait(Cond::TimeMs(3600)).q(&format!("SELECT 2 /*{}*/", t(2, 0))).terminate();
+        }
+        _ => panic!("victim"),
+    }
+    let other = |c: usize, at: u64| -> Script {
+        let mut s = Script::new(&format!("c{}", c)).wait(Cond::TimeMs(at)).connect("alice", "db", Some("alicepw"));
+        for j in 0..3 {
+            s = s.q(&format!("SELECT {} /*{}*/", j, tag(c, j, 0)));
+        }
+        s.terminate()
+    };
+    Scenario {
+        name: format!("C01 mode={} pool_size={} progs=timeout:{} gate=Off", mode, pool_size, victim),
+        toml: cfg.toml(),
+        alt_tomls: vec![],
+        servers,
+        actors: vec![v.actor(), other(1, 0).actor(), other(2, 2500).actor(), other(3, 4000).actor()],
+        opts: Opts { horizon_ms: 30_000, ..Opts::default() },
+        meta: serde_json::Value::Null,
+    }
+}
+
 pub fn oracle(sc: &Scenario, out: &Outcome) -> Vec<Violation> {
     let log = &out.log;
     let mut vs = Vec::new();
@@ -295,12 +345,19 @@ pub fn build(tier: &str) -> SimCheck {
             }
         }
     }
+    // (transaction mode: a pooler timeout ends the session's hold on its server, which the
+    // session-mode monitor would read as a hand-over inside a session)
+    for pool_size in [1u32, 2] {
+        for victim in ["slow-drop", "slow-fin", "slow-stay", "slow-in-txn-drop", "idle-in-txn"] {
+            scenarios.push(timeout_scenario("transaction", pool_size, victim));
+        }
+    }
     SimCheck {
         scenarios,
         oracle: Box::new(oracle),
         bound: if thorough { 3 } else { 2 },
         limits: Limits { max_wall_s: if thorough { 2400.0 } else { 50.0 }, ..Default::default() },
-        rule: "scenario = pool mode x pool_size x tuple of client programs (simple, multi-statement, failed, extended, pipelined, COPY in/out/fail transactions); every schedule of client sends, backend reply deliveries and checkouts with at most `bound` deviations from run-to-completion order; distinct = distinct observable end-to-end histories".into(),
+        rule: "scenario = pool mode x pool_size x tuple of client programs (simple, multi-statement, failed, extended, pipelined, COPY in/out/fail transactions), plus timeout scenarios (statement answered after statement_timeout with the client present / dropped / FIN / inside a transaction, idle-in-transaction timeout) next to three other clients; every schedule of client sends, backend reply deliveries and checkouts with at most `bound` deviations from run-to-completion order; distinct = distinct observable end-to-end histories".into(),
         assumptions: vec![
             "reference backend (mockpg) is the trusted model of a PostgreSQL session".into(),
             "single-threaded runtime: interleavings at await-point granularity".into(),
